@@ -384,6 +384,15 @@ func confs(thorough bool) (cs []conf) {
 		}
 	}
 
+	// An element limit above the size limit is clamped to it.
+	for _, ms := range []uint{3, 4, 6} {
+		for _, mc := range counts[:3] {
+			cs = append(cs, conf{MaxSize: ms, MaxElementSize: 8, MaxCount: mc, LRU: false},
+				conf{MaxSize: ms, MaxElementSize: 8, MaxCount: mc, LRU: true, OnDelete: 1},
+				conf{MaxSize: ms, MaxElementSize: ms + 1, MaxCount: mc, LRU: true, OnDelete: 1})
+		}
+	}
+
 	// Limits near 2^31, 2^32, 2^63 and the maximum: effectively unlimited, and
 	// must behave so (with a small element limit, and without).
 	for _, big := range []uint{1 << 31, 1 << 32, 1 << 63, ^uint(0)} {
